@@ -7,6 +7,7 @@ the invariant: the store is a map, parent-closed, directories carry no link id, 
 are files. `OpOk` is the client contract "directories are never given a hard-link id".
 -/
 import SwV.Model.C18
+import SwV.Gen.C18
 import SwV.Spec.C18
 import SwV.Lemmas.C18
 
@@ -349,5 +350,26 @@ theorem rename_file_moves (s : St) (inv : TreeInv s) (src : RPath) (n : String) 
 example : ∃ (s : St) (a : Entry), TreeInv s ∧ (["a"], a) ∈ s.ents ∧ a.isDir = false ∧ a.hl = 0 ∧ find s ["b"] = none :=
   ⟨run {} [.create ["a"] { isDir := false, tag := 1, chunks := [1], hl := 0, cnt := 0 } false],
    { isDir := false, tag := 1, chunks := [1], hl := 0, cnt := 0 }, tree_inv _ (by simp [OpOk]), by decide, rfl, rfl, by decide⟩
+
+/-! ### tie to the source (T1): the Go functions this model mirrors are the ones it was written against -/
+
+/-- a source edit of any mirrored function changes its hash and breaks this obligation (the model must then be
+    re-read against the code; the correspondence check says whether behaviour changed) -/
+theorem bridge_source_pins :
+    SwV.Gen.C18.src_CreateEntry = "91bbddabea3f97c2" ∧
+    SwV.Gen.C18.src_ensureParentDirecotryEntry = "e77638f897e9ea72" ∧
+    SwV.Gen.C18.src_UpdateEntry = "42f0d53b6e3a8052" ∧
+    SwV.Gen.C18.src_DeleteEntryMetaAndData = "d2c3c47d2d5354d7" ∧
+    SwV.Gen.C18.src_doBatchDeleteFolderMetaAndData = "b5846477150726cb" ∧
+    SwV.Gen.C18.src_doDeleteEntryMetaAndData = "a5d822e33f4086ba" ∧
+    SwV.Gen.C18.src_CanRename = "ea321e1e0413b6d7" ∧
+    SwV.Gen.C18.src_AtomicRenameEntry = "97247fb01ea393c4" ∧
+    SwV.Gen.C18.src_moveEntry = "095ebf593537cd26" ∧
+    SwV.Gen.C18.src_moveFolderSubEntries = "7a1303adc67bd7ce" ∧
+    SwV.Gen.C18.src_moveSelfEntry = "6fb6d3093248b367" := by
+  decide
+
+/-- the model lists a directory in ONE page (universes of the check are far smaller) -/
+theorem bridge_pagination : SwV.Gen.C18.PaginationSize = 1024 := by decide
 
 end SwV.Props.C18
